@@ -246,6 +246,14 @@ func (cr *checkRunner) checkRcpt(ctx context.Context, checks []module.Check, rcp
 		cr.checkedRcptsLock.Unlock()
 
 		res := s.CheckRcpt(ctx, rcptTo)
+		if res.Reject {
+			// The recipient is refused. If the client names it again, it
+			// has to be refused again, not accepted because the check
+			// "has seen it already".
+			cr.checkedRcptsLock.Lock()
+			delete(cr.checkedRcptsPerCheck[s], rcptTo)
+			cr.checkedRcptsLock.Unlock()
+		}
 		return res
 	})
 
